@@ -35,10 +35,117 @@ let parse_edits_obs s =
   | ["ERR"; c] -> Some (EErr (nat_of_int (int_of_string c)))
   | _ -> None
 
+(* ---------- stream "chain": whole pipeline cases ---------- *)
+(* K noT unusedT errorT teT debugT | nT (tc iface pkg nmeth mappable mapkey anon nimpl impl.. prod)* | nP provider* |
+   invoke: nIns ins.. nOuts outs.. | init: present nIns ins.. nOuts outs.. | nSteps step..     ('|' tokens are separators) *)
+let n = nat_of_int
+let parse_chain toks =
+  let a = Array.of_list (List.filter (fun t -> t <> "|") toks) in
+  let pos = ref 0 in
+  let next () = let v = int_of_string a.(!pos) in incr pos; v in
+  let nexts k = List.init k (fun _ -> n (next ())) in
+  let counted () = let k = next () in nexts k in
+  let opt_counted () = let k = next () in if k < 0 then None else Some (nexts k) in
+  let noT = next () in let unusedT = next () in let errorT = next () in let teT = next () in let debugT = next () in
+  let nT = next () in
+  let types = List.init nT (fun _ ->
+    let tc = next () in let iface = next () in let pkg = next () in let nmeth = next () in
+    let mappable = next () in let mapkey = next () in let anon = next () in
+    let impl = counted () in let prod = next () in
+    { ty_code = n tc; ty_iface = iface <> 0; ty_pkg = n pkg; ty_nmeth = n nmeth; ty_mappable = mappable <> 0;
+      ty_mapkey = mapkey <> 0; ty_anonfunc = anon <> 0; ty_impl = impl; ty_prod = n prod }) in
+  let te = { te_types = types; te_noT = n noT; te_unusedT = n unusedT; te_errorT = n errorT;
+             te_terminalT = n teT; te_debugT = n debugT } in
+  let shape () =
+    match next () with
+    | 0 -> ShNil
+    | 1 -> ShLit (n (next ()))
+    | 2 -> let i = counted () in let o = counted () in ShFn (i, o)
+    | 3 -> let i = counted () in let ii = counted () in let io = counted () in let o = counted () in ShWrap (i, ii, io, o)
+    | 4 -> let i = counted () in let o = counted () in ShFnPtr (i, o)
+    | _ -> failwith "bad shape" in
+  let provider () =
+    let pid = next () in let origin = next () in let rep = next () in let bef = next () in let aft = next () in
+    let sh = shape () in
+    let fl = next () in
+    let bit k = (fl lsr k) land 1 = 1 in
+    let cluster = next () in
+    let loose = counted () in let mc = opt_counted () in let co = opt_counted () in let sa = counted () in
+    let failmask = next () in let calls = counted () in let passthru = next () in
+    (* annotation bits -> provider flags, as api.go composes them *)
+    let a_cacheable = bit 2 and a_mustCache = bit 3 and a_memoize = bit 5 and a_singleton = bit 10 in
+    { d_pid = n pid; d_origin = n origin; d_rep = n rep; d_bef = n bef; d_aft = n aft; d_shape = sh;
+      d_reflective = bit 0; d_nonFinal = bit 1;
+      d_cacheable = a_cacheable || a_mustCache || a_memoize || a_singleton;
+      d_mustCache = a_mustCache || a_singleton;
+      d_required = bit 4; d_memoize = a_memoize; d_reorder = bit 6; d_desired = bit 7; d_shun = bit 8;
+      d_notCacheable = bit 9; d_singleton = a_singleton; d_parallel = bit 11; d_cluster = n cluster;
+      d_loose = loose; d_mustConsume = mc; d_consumptionOptional = co; d_shadowingAllowed = sa;
+      d_failmask = n failmask; d_calls = calls; d_passthru = passthru <> 0 } in
+  let nP = next () in
+  let provs = List.init nP (fun _ -> provider ()) in
+  let plain pid sh = { d_pid = n pid; d_origin = O; d_rep = O; d_bef = O; d_aft = O; d_shape = sh;
+      d_reflective = false; d_nonFinal = false; d_cacheable = false; d_mustCache = false; d_required = false;
+      d_memoize = false; d_reorder = false; d_desired = false; d_shun = false; d_notCacheable = false;
+      d_singleton = false; d_parallel = false; d_cluster = O; d_loose = []; d_mustConsume = None;
+      d_consumptionOptional = None; d_shadowingAllowed = []; d_failmask = O; d_calls = []; d_passthru = false } in
+  let inv = (let i = counted () in let o = counted () in plain 92 (ShFnPtr (i, o))) in
+  let init = (let present = next () in let i = counted () in let o = counted () in
+              if present <> 0 then Some (plain 91 (ShFnPtr (i, o))) else None) in
+  let nS = next () in
+  let sess = List.init nS (fun _ -> next () <> 0) in
+  (te, { bc_te = te; bc_provs = provs; bc_invoke = inv; bc_init = init; bc_session = sess })
+
+let show_val te v =
+  let special t = if t = te.te_unusedT then Some "u" else if t = te.te_debugT then Some "d" else None in
+  match v with
+  | VTag (t, p, s) -> (match special t with Some x -> x | None ->
+      Printf.sprintf "%d.%d.%d" (int_of_nat t) (int_of_nat p) (int_of_nat s))
+  | VErr (p, s) -> Printf.sprintf "e.%d.%d" (int_of_nat p) (int_of_nat s)
+  | VZero t ->
+    if t = te.te_unusedT then "u"
+    else if is_iface te t || t = te.te_errorT || t = te.te_terminalT || t = te.te_debugT then "nil"
+    else Printf.sprintf "%d.0.0" (int_of_nat t)
+  | VInvalid -> "!"
+let show_vals te l = "(" ^ String.concat "," (List.map (show_val te) l) ^ ")"
+
+let show_obs te (o : obs) =
+  match o.o_bind with
+  | Err c -> "BIND err " ^ string_of_int (int_of_nat c)
+  | Panic c -> "BIND panic " ^ string_of_int (int_of_nat c)
+  | Ok _ ->
+    let b = Buffer.create 256 in
+    Buffer.add_string b "BIND ok ; ORDER";
+    List.iter (fun (((pid, cl), gr), inc) ->
+      Buffer.add_string b (Printf.sprintf " %d:%d:%d:%d" (int_of_nat pid) (int_of_nat cl) (int_of_nat gr) (if inc then 1 else 0)))
+      o.o_order;
+    Buffer.add_string b " ; RMAP";
+    List.iter (fun ((pid, d), u) ->
+      if d <> [] || u <> [] then begin
+        Buffer.add_string b (Printf.sprintf " %d" (int_of_nat pid));
+        List.iter (fun (x, y) -> Buffer.add_string b (Printf.sprintf ":d%d>%d" (int_of_nat x) (int_of_nat y))) d;
+        List.iter (fun (x, y) -> Buffer.add_string b (Printf.sprintf ":u%d>%d" (int_of_nat x) (int_of_nat y))) u
+      end) o.o_rmaps;
+    Buffer.add_string b " ; RES";
+    List.iter (fun r -> Buffer.add_string b (match r with
+      | RInit vs -> " i" ^ show_vals te vs
+      | RInvoke vs -> " x" ^ show_vals te vs
+      | RPanic -> " P"
+      | RNoInit -> " N")) o.o_results;
+    Buffer.add_string b " ; LOG";
+    List.iter (fun e -> Buffer.add_string b (match e with
+      | ECall (p, a, r) -> Printf.sprintf " C%d%s>%s" (int_of_nat p) (show_vals te a) (show_vals te r)
+      | EEnter (p, a) -> Printf.sprintf " E%d%s" (int_of_nat p) (show_vals te a)
+      | EInner (p, k, a) -> Printf.sprintf " I%d.%d%s" (int_of_nat p) (int_of_nat k) (show_vals te a)
+      | EInnerRet (p, k, a) -> Printf.sprintf " J%d.%d%s" (int_of_nat p) (int_of_nat k) (show_vals te a)
+      | ELeave (p, a) -> Printf.sprintf " L%d%s" (int_of_nat p) (show_vals te a))) o.o_log;
+    Buffer.contents b
+
 (* ---------- dispatch ---------- *)
 let model_line line =
   match split_ws line with
   | "E" :: rest -> show_edits_obs (edits_obs (parse_edits rest))
+  | "K" :: rest -> let (te, c) = parse_chain rest in show_obs te (model_run c)
   | _ -> "UNKNOWN-CASE"
 
 let verdict b why = if b then "PASS" else "FAIL " ^ why
